@@ -37,6 +37,10 @@ NAMESETS["activeish2"] = (b"ACTIVE", b"active", b"old ACTIVE")
 # names that a Unicode normalisation or a case folding would change or merge
 NAMESETS["non-nfc"] = ("o\u0302ld".encode("utf-8"), "re\u0301pondeur".encode("utf-8"), "\u212bngstr\u00f6m".encode("utf-8"))
 NAMESETS["new-non-nfc"] = (b"old-script", "re\u0301pondeur".encode("utf-8"), b"other")
+# names spelled like a status reply
+NAMESETS["statusish"] = (b"old", b"new", b"OK")
+NAMESETS["statusish2"] = (b"NO", b"BYE", b"ok")
+NAMESETS["statusish3"] = (b"OK", b"ok", b"No")
 NAMESETS["case-twins"] = (b"Script", b"script", b"SCRIPT")
 NAMESETS["blank-twins"] = (b"name", b"name ", b" name")
 NAMESETS["new-special"] = (NAMESETS["plain"][0], NAMESETS["special"][1], NAMESETS["plain"][2])
